@@ -25,7 +25,7 @@ func TestVerifLicConc(t *testing.T) {
 	for _, i := range rng.Perm(len(all))[:14] {
 		files = append(files, all[i])
 	}
-	for _, f := range []string{"WTFPL.txt", "AGPL-3.0.txt"} {
+	for _, f := range []string{"WTFPL.txt", "CC-BY-NC-1.0.txt"} {
 		has := false
 		for _, g := range files {
 			has = has || g == f
@@ -69,7 +69,7 @@ func TestVerifLicConc(t *testing.T) {
 	qs = append(qs, "license", "this software is provided under the license", "zzqx vvkq", "permission is hereby granted")
 	// texts that are classified as a forbidden license but lack its mandatory phrase (such matches are discarded): whatever
 	// that decision needs is also first needed by racing calls
-	for _, f := range []string{"WTFPL.txt", "AGPL-3.0.txt"} {
+	for _, f := range []string{"WTFPL.txt", "CC-BY-NC-1.0.txt"} {
 		ws := strings.Fields(lcRead(f))
 		for k := 5; k < len(ws); k += 23 {
 			ws[k] = "zzqx"
@@ -85,7 +85,25 @@ func TestVerifLicConc(t *testing.T) {
 			rec.nm("lic", lref, q, "", false, fmt.Sprintf("nm|%d", i), fmt.Sprintf("q%d", i))
 		}
 	}()
-	for round := 0; round < 6; round++ {
+	// the very first calls of this process: many callers, the same short text, finishing at the same moment
+	{
+		l0 := load()
+		qi := len(qs) - 4 // the damaged WTFPL text
+		var wg sync.WaitGroup
+		var mu sync.Mutex
+		for g := 0; g < 16; g++ {
+			wg.Add(1)
+			go func() {
+				defer wg.Done()
+				ms := l0.MultipleMatch(qs[qi], true)
+				mu.Lock()
+				defer mu.Unlock()
+				rec.mmR("lic", l0, al, qs[qi], ms, fmt.Sprintf("mm|%d", qi), fmt.Sprintf("q%d", qi))
+			}()
+		}
+		wg.Wait()
+	}
+	for round := 0; round < 4; round++ {
 		l := load() // cold
 		var wg sync.WaitGroup
 		var mu sync.Mutex
